@@ -93,7 +93,7 @@ def worker(args):
 
 def run(ctx):
     server_bin("rel")
-    nprog, mi = (25, 25) if ctx.quick else (1500, 80)
+    nprog, mi = (60, 25) if ctx.quick else (1500, 80)
     open_ids = frozenset(f["id"] for f in ctx.open_findings())
     replay_witnesses(ctx)
     for p in pmap(worker, [("%s/%d" % (ctx.seed, i), nprog, mi, open_ids) for i in range(NCPU)]): ctx.merge(p)
